@@ -29,13 +29,28 @@ def run_twins(repo, props, tier='quick', timeout=None):
         env.update({'CARGO_TARGET_DIR': os.path.join(tmp, 'target'), 'VERIF_TWIN': ','.join(props), 'VERIF_TIER': tier,
                     'CARGO_NET_OFFLINE': 'true', 'RUST_BACKTRACE': '0'})
         cmd = ['cargo', 'test', '--offline', '--test', 'verif_twin', '--', '--nocapture']
+        # own process group: on a time-out the test binary (a grandchild of cargo) must die too, a hung library call
+        # would otherwise keep spinning after this function returned
+        import signal
+        pr = subprocess.Popen(cmd, cwd=dst, env=env, stdout=subprocess.PIPE, stderr=subprocess.STDOUT, text=True, start_new_session=True)
         try:
-            p = subprocess.run(cmd, cwd=dst, env=env, stdout=subprocess.PIPE, stderr=subprocess.STDOUT, text=True, timeout=timeout)
-            out = p.stdout
-            rc = p.returncode
-        except subprocess.TimeoutExpired as e:
-            out = (e.stdout or '') if isinstance(e.stdout, str) else ''
+            out, _ = pr.communicate(timeout=timeout)
+            rc = pr.returncode
+        except subprocess.TimeoutExpired:
+            try:
+                os.killpg(pr.pid, signal.SIGKILL)
+            except Exception:
+                pass
+            try:
+                out, _ = pr.communicate(timeout=30)
+            except Exception:
+                out = ''
             rc = -9
+        finally:
+            try:
+                os.killpg(pr.pid, signal.SIGKILL)
+            except Exception:
+                pass
         twins = []
         fails = []
         for line in out.splitlines():
